@@ -39,6 +39,7 @@ class Engine(ExprMixin, CallMixin):
         self.externals = externals or {}
         self.exc_classes = set(exc_classes)
         self.opaque_may_raise = opaque_may_raise
+        self.feas_ms = 700
         self.hooks = hooks
         self.assumptions = set()
         self.trusted = set()
@@ -93,8 +94,9 @@ class Engine(ExprMixin, CallMixin):
 
     # ---- solver interface ------------------------------------------------------------------------------------------
     def feasible(self, pc):
-        key = tuple(id(x) for x in pc[-6:]) + (len(pc),)
-        return smt.quick_sat(pc, 3000)
+        # unsat is what matters here (found by instantiation, fast); a quantified `sat` is usually `unknown`
+        # after the time limit, and an infeasible path that is kept costs time but never soundness
+        return smt.quick_sat(pc, self.feas_ms)
 
     def oblige(self, kind, label, st, goal, node=None, inductive=False):
         g = z3.simplify(goal) if not isinstance(goal, bool) else z3.BoolVal(goal)
@@ -262,6 +264,15 @@ class Engine(ExprMixin, CallMixin):
         raise Unsupported('assignment target %s' % type(tgt).__name__)
 
     def assign_slice(self, tgt, v, st):
+        sl = tgt.slice
+        if sl.lower is None and sl.upper is None and sl.step is None and isinstance(v, SLit) and v.kind == 'list':
+            o = self.ev1(tgt.value, st)
+            if isinstance(o, SRef) and o.cls.ncells == len(v.items):
+                s = st.copy()
+                for i, it in enumerate(v.items):
+                    self.on_field_access(s, o, str(i), 'write', tgt)
+                    self.hstore(s, o, str(i), self.coerce(s, it, o.cls.fields[str(i)]))
+                return [('next', None, s)]
         raise Unsupported('slice assignment at line %d' % tgt.lineno)
 
     def store_attr(self, o, attr, v, st, node=None):
@@ -747,6 +758,7 @@ class Engine(ExprMixin, CallMixin):
             for ctrl, val, s in outcomes:
                 if ctrl in ('next', 'return'):
                     res = val if (ctrl == 'return' and val is not None) else SNone()
+                    s = self.ghost_exit(con, s, args, 'return', res)
                     c = Ctx(self, s, self.entry_state, args, result=res)
                     for label, b in con.ensures(c):
                         self.oblige('post', 'ensures %s' % label, s, b, fnode)
@@ -762,6 +774,7 @@ class Engine(ExprMixin, CallMixin):
                             break
                     if post is None and exc == 'AnyException' and con.exc_any is not None:
                         post = con.exc_any
+                    s = self.ghost_exit(con, s, args, exc, None)
                     c = Ctx(self, s, self.entry_state, args, exc=exc)
                     if post is None:
                         self.oblige('post', 'no undeclared exception (%s)' % exc, s, z3.BoolVal(False), fnode)
@@ -779,6 +792,18 @@ class Engine(ExprMixin, CallMixin):
             return dict(status='unsupported', reason='z3 sort error: %s' % e, obligations=[], sha=sha, dropped=dropped)
         return dict(status='ok', obligations=self.pending, sha=sha, dropped=dropped, paths=self.paths,
                     called=sorted(self.called), inlined=sorted(self.inlined))
+
+    def ghost_exit(self, con, s, args, outcome, res):
+        """ghost statements executed at function exit (the code itself never touches ghost state)"""
+        ge = getattr(con, 'ghost_exit', None)
+        if ge is None:
+            return s
+        c = Ctx(self, s, self.entry_state, args, result=res)
+        upd = ge(c, outcome)
+        if upd:
+            s = s.copy()
+            s.ghost.update(upd)
+        return s
 
     def frame_obligations(self, con, c, s, fnode, tag):
         if con.modifies is None:
